@@ -623,3 +623,14 @@ def run(rep: Report, tier: str):
     check_process_state(repo, rep)
     check_one_shot(repo, rep)
     check_read_only(repo, rep)
+
+    # value level, interpreted last: the same pickle analysed in a fresh process and after something else happened in the process
+    from ..editworlds import explore_history
+
+    rep.rule("C13.history-worlds", "program, summaries, verdict and bytes of a pickle are the same in a fresh process, after another pickle was analysed or half decompiled, and when asked twice", 1)
+    found, n_worlds = explore_history(repo, tier)
+    pkc = repo.cls("fickling.fickle.Pickled")
+    for key, (c, msg) in sorted(found.items()):
+        rep.bad("C13.history-worlds", pkc.qualname, key, f"{msg} [{c} world(s)]", pkc.module.relpath, pkc.node.lineno)
+    rep.ok("C13.history-worlds", pkc.qualname, f"{n_worlds} worlds (7 pickles: every ordered pair with the other one fully analysed or half decompiled and abandoned before, and each one asked twice) interpreted in one interpreter each (class-level, module-level and cached state persists as in a process) and compared with a fresh one", "", nontrivial=True)
+
